@@ -108,7 +108,9 @@ def run (lines : Array String) : IO Report := do
         -- oracle: the specification (per key the entry of greatest position, in (hash,key) order; every member of every
         -- group of different keys sharing a hash reported) — stated for the inputs the code is meant for: sources
         -- non-empty and strictly sorted, no two entries with the same key AND the same position
-        if HintMerge.srcsOK parsed && HintMerge.noTies (HintMerge.allItems parsed) then
+        let ne := parsed.filter (fun s => !s.2.isEmpty)     -- a hint file without items contributes nothing
+        if obs == "PANIC" then diff rep ln "oracle" s!"case={cid} key=C14/panic-empty-source the merge panicked"
+        if HintMerge.srcsOK ne && HintMerge.noTies (HintMerge.allItems ne) then
           let (merged, groups) := merge parsed
           let m := if forGC then s!"coll={fmtItems groups}" else s!"ds={ds} merged={fmtItems merged} coll={fmtItems groups}"
           if m ≠ obs then diff rep ln "oracle" s!"case={cid} key=C14/merge merge result differs from the specification: spec={m.take 200} impl={obs.take 200}"
